@@ -6,6 +6,11 @@ VERIF = os.path.dirname(os.path.abspath(__file__))
 
 # id -> (level, technique, text, note, design section)
 CHECKS = {
+    "C08": ("fault_enumeration",
+            "runtime monitoring with fault enumeration: every crash-point hook firing of generated histories snapshots the spool directory; a child reopens it with the real code; oracle over delivered run vs E/H/Hs/S; real SIGKILL sample",
+            "Every firing of the tag-guarded crash-point hook (after each file write, fsync, meta tmp create/write, rename, segment remove, bad-file rename, rollover, and at rest) in every generated put/get history is treated as the instant the relay dies: the directory is copied, a child process reopens it with the real DiskQueue, drains it and the delivered run is judged against what the harness knew at that instant (contiguous byte-identical run, starts no later than the first unhanded message and no earlier than what was consumed at the last completed sync, reaches the last message written before that sync); then fresh messages are enqueued and drained. A sample of histories is also run in a child that really SIGKILLs itself at the point. Enumerates all crash points of the histories generated, not all histories.",
+            "Process death only (page cache survives); hook placement covers every filesystem mutation in diskqueue.go (checked by reading); tmpfs.",
+            "DESIGN.md §4 C08"),
     "C09": ("exploration",
             "runtime monitoring: real DiskQueue driven step-by-step, reference FIFO model + depth invariant at idle-hook quiescent points, under -race",
             "Random operation histories (put/get/close+reopen, sizes 0..3 segments, segment limit from 1 byte, syncEvery from 1) are executed against the real nsqd.DiskQueue; after every operation the I/O loop is awaited at its idle point and every delivered message, Depth() and the ready/empty state are compared with a slice model; plus concurrent producer histories checked for per-producer order and exactly-once. Held-on-N-histories, not a proof.",
